@@ -258,6 +258,9 @@ func (r *refRun) applyText(o *OptInfo, text string) *RefErr {
 		return &RefErr{Types: []flags.ErrorType{flags.ErrMarshal}, Name: o.Display(), Why: "conversion of " + strconv.Quote(text) + " to " + string(o.Kind)}
 	}
 	if o.Kind.IsFunc() {
+		if o.Kind == KFuncSS {
+			e = []string{e.(string)}
+		}
 		r.res.CbLog = append(r.res.CbLog, CbEntry{Opt: o.ID, Arg: e})
 		if o.CbErr {
 			return &RefErr{Types: []flags.ErrorType{flags.ErrMarshal}, Foreign: true, Name: o.Display(), Why: "option callback returned an error"}
